@@ -21,6 +21,12 @@ CHECKS = {
  "C07": dict(category="exploration", technique="bounded exhaustive enumeration of expressions (operator x operand class) and merge programs; finite-difference oracle along lines of a fixed grid using the reference interpreter on the real SSA CFG",
    text="For every node with a claimed degree bound d in {constant, linear, quadratic} the node is evaluated at 4 points of 30 lines (6 bases x 5 directions) in the space of indeterminates (signals/ports in templates, parameters in functions); the (d+1)-th finite difference must vanish. A polynomial of total degree <= d has degree <= d on every line, so a non-zero difference proves the claim false (no false alarm possible); array bounds are audited on every element at each update. Spaces: 20 infix x 14^2 operand classes, prefix, ternary, depth-2 combinations (thorough), and control-flow merging programs.",
    note="One-sided by construction: a vanishing difference proves nothing. Trusted: interpreter, field reference. One open known finding (array forgets an element of unknown degree).", ref="5/C07"),
+ "C08": dict(category="exploration", technique="bounded exhaustive enumeration of statement sequences over a 14-form alphabet x 3 contexts, through the real parser/desugarer/lifter/pass with generator-recorded spans and an independent token scan",
+   text="Templates whose body is every sequence of <=3 (4) items from 14 forms (scalar, -->, array element, loop-indexed element, component input, component array input, declaration with <--, tuple, anonymous component output, anonymous component named <-- input, <==, ===, array ===, quadratic <--) in contexts {top, if, for}: the number of signal-assignment findings anchored at each `<--`/`-->` statement (at the call for anonymous inputs, at the element for tuples) is exactly one, none elsewhere, none in custom templates or functions; secondaries of `signal assignment` findings are exactly the constraint statements mentioning the assigned signal; generator count = token-scan count.",
+   note="Trusted: span recorder in mc/src/props/c08.rs, token scanner. Only definitions that lift are judged (others belong to C02).", ref="5/C08"),
+ "C11": dict(category="exploration", technique="complete enumeration of a finite domain: documented table (parsed from the doc at check time) + near-miss names, all constant sizes 0..300 + non-constant forms, all case spellings and one-edit neighbours of the curve names",
+   text="CS0016 iff the documented template/curve table (Circomlib spelling) marks the pair, never under BN254, for 26 names + ~9 near misses each x 3 instantiation forms x 3 curves; Num2Bits/Bits2Num(n) flagged under BN254 unless n is a constant < 254, for every n in 0..300 and 8 non-constant / computed forms, never under other curves; an unsafe Num2Bits(k) (2^k - 1 > p/2, computed from the prime) never silences the LessThan finding; curve names accepted iff case-insensitively equal to one of the three (all 1036 case spellings + every one-edit neighbour), 40 of them through the binary.",
+   note="Trusted: the table parser, primes in refsem/field.rs. Finite domain, fully enumerated.", ref="5/C11"),
  "C12": dict(category="exploration", technique="bounded exhaustive enumeration of control-flow skeletons; structural invariants + dominance by definition on the real CFG",
    text="Every control-flow skeleton (if/if-else/while/for/blocks; bare, empty and braced bodies up to 4/5 statements, braced bodies up to 7/8 statements, nesting <=3) is lifted by the real into_cfg and into_ssa as function and as template; entry/reachability/mirror/branch-position/target/successor-count invariants, i dom j => i<=j with dominance by definition, the recorded loop depth against the loop nesting the generator recorded for each statement, and edge preservation by SSA are checked on every one.",
    note="Trusted: generator span recorder (mc/src/space/prog.rs), refsem/dom.rs. Skeletons beyond the statement bound are covered only by the small-scope argument.", ref="5/C12"),
